@@ -16,7 +16,8 @@ structure Blk where
   lat : List Int
 
 def Blk.lines (b : Blk) : List HLine :=
-  [.phase b.id, .materialName [b.name], .formula [b.name], .other, .symmetry b.sym, .lattice b.lat, .other]
+  [.phase b.id, .materialName (splitWs b.name), .formula (splitWs b.name), .other, .symmetry b.sym,
+   .lattice b.lat, .other]
 
 def Blk.phase (b : Blk) : PhaseInfo :=
   { id := (b.id : Int), name := b.name, pg := some b.pg, sg := none, lattice := b.lat, atoms := [] }
@@ -50,7 +51,18 @@ theorem hdr_neutral (l : List HLine) (h : ∀ x ∈ l, neutral x = true) :
     cases x <;> simp [neutral] at hx <;>
       simp_all [hdrIds, hdrNames, hdrFormulas, hdrSyms, hdrLattices, List.filterMap_cons]
 
-theorem hdr_blocks (bs : List Blk) (hn : ∀ b ∈ bs, b.name ≠ []) :
+/-- the name of a block is non-empty and survives splitting at whitespace and re-joining -/
+def Blk.nameOK (b : Blk) : Prop := b.name ≠ [] ∧ joinSp (splitWs b.name) = b.name
+
+theorem Blk.toks (b : Blk) (h : b.nameOK) : ∃ t ts, splitWs b.name = t :: ts := by
+  cases hs : splitWs b.name with
+  | nil =>
+    have := h.2
+    rw [hs] at this
+    exact absurd this.symm h.1
+  | cons t ts => exact ⟨t, ts, rfl⟩
+
+theorem hdr_blocks (bs : List Blk) (hn : ∀ b ∈ bs, b.nameOK) :
     hdrIds (bs.flatMap Blk.lines) = bs.map (·.id) ∧
     hdrNames (bs.flatMap Blk.lines) = bs.map (·.name) ∧
     hdrFormulas (bs.flatMap Blk.lines) = bs.map (·.name) ∧
@@ -60,10 +72,13 @@ theorem hdr_blocks (bs : List Blk) (hn : ∀ b ∈ bs, b.name ≠ []) :
   | nil => simp [hdrIds, hdrNames, hdrFormulas, hdrSyms, hdrLattices]
   | cons b r ih =>
     obtain ⟨h1, h2, h3, h4, h5⟩ := ih (fun y hy => hn y (by simp [hy]))
+    have hb := hn b (by simp)
+    obtain ⟨t, ts, hts⟩ := b.toks hb
+    have hj : joinSp (t :: ts) = b.name := by rw [← hts]; exact hb.2
     simp only [List.flatMap_cons, hdrIds_append, hdrNames_append, hdrFormulas_append, hdrSyms_append,
       hdrLattices_append, h1, h2, h3, h4, h5, List.map_cons]
     refine ⟨?_, ?_, ?_, ?_, ?_⟩ <;>
-      simp [Blk.lines, hdrIds, hdrNames, hdrFormulas, hdrSyms, hdrLattices, List.filterMap_cons, joinSp]
+      simp [Blk.lines, hts, hdrIds, hdrNames, hdrFormulas, hdrSyms, hdrLattices, List.filterMap_cons, hj]
 
 theorem phaseIds_self (ids : List Nat) : phaseIds ids ids.length = ids := by
   unfold phaseIds
@@ -83,7 +98,7 @@ theorem zipPhases_blocks (t : ReaderTables) (bs : List Blk)
 /-- the header parser on a header made of neutral lines around a sequence of phase blocks -/
 theorem headerPhases_blocks (t : ReaderTables) (pre post : List HLine) (bs : List Blk)
     (hpre : ∀ x ∈ pre, neutral x = true) (hpost : ∀ x ∈ post, neutral x = true)
-    (hn : ∀ b ∈ bs, b.name ≠ [])
+    (hn : ∀ b ∈ bs, b.nameOK)
     (hr : ∀ b ∈ bs, resolvePG t.aliases t.groups b.sym = some b.pg) :
     headerPhases t (pre ++ bs.flatMap Blk.lines ++ post) = some (sortById (bs.map Blk.phase)) := by
   obtain ⟨a1, a2, a3, a4, a5⟩ := hdr_neutral pre hpre
